@@ -99,7 +99,9 @@ outer:
 	if trace.RootSpan != nil {
 		for _, field := range d.rootOnlyFields {
 			if trace.RootSpan.Data.Exists(field) {
-				d.keyBuilder.WriteString(fmt.Sprintf("%v,", trace.RootSpan.Data.Get(field)))
+				d.distinctValue.buf = appendValueAsString(d.distinctValue.buf[:0], trace.RootSpan.Data.Get(field))
+				d.keyBuilder.Write(d.distinctValue.buf)
+				d.keyBuilder.WriteByte(',')
 				fieldCount += 1
 			}
 		}
@@ -166,27 +168,32 @@ func (d *distinctValue) Values(fieldIdx int) []string {
 	return d.valuesBuffer
 }
 
+// appendValueAsString appends the text a field value contributes to a trace key.
+// Root-only and per-span key fields use the same text, so that a number reads the
+// same however it was encoded (float64(1000000) must not become "1e+06").
+func appendValueAsString(buf []byte, value any) []byte {
+	switch v := value.(type) {
+	case string:
+		return append(buf, []byte(v)...)
+	case int:
+		return strconv.AppendInt(buf, int64(v), 10)
+	case int64:
+		return strconv.AppendInt(buf, v, 10)
+	case float64:
+		return strconv.AppendFloat(buf, v, 'f', -1, 64)
+	case bool:
+		return strconv.AppendBool(buf, v)
+	case nil:
+		return append(buf, "<nil>"...)
+	default:
+		return append(buf, fmt.Sprintf("%v", v)...)
+	}
+}
+
 // AddAsString adds a value to the distinct values for a given field index.
 // It returns true if the value was added, false if it was already present or if the maxDistinctValue limit was reached.
 func (d *distinctValue) AddAsString(value any, fieldIdx int) bool {
-	d.buf = d.buf[:0] // reset the buffer for each new value
-
-	switch v := value.(type) {
-	case string:
-		d.buf = append(d.buf, []byte(v)...)
-	case int:
-		d.buf = strconv.AppendInt(d.buf, int64(v), 10)
-	case int64:
-		d.buf = strconv.AppendInt(d.buf, v, 10)
-	case float64:
-		d.buf = strconv.AppendFloat(d.buf, v, 'f', -1, 64)
-	case bool:
-		d.buf = strconv.AppendBool(d.buf, v)
-	case nil:
-		d.buf = append(d.buf, "<nil>"...)
-	default:
-		d.buf = append(d.buf, fmt.Sprintf("%v", v)...)
-	}
+	d.buf = appendValueAsString(d.buf[:0], value) // reset the buffer for each new value
 
 	hash := wyhash.Hash(d.buf, 0)
 	if _, exists := d.values[fieldIdx][hash]; !exists {
